@@ -2,6 +2,7 @@ package server
 
 import (
 	"context"
+	"encoding/hex"
 	"fmt"
 	"hash/crc32"
 	"io"
@@ -906,37 +907,47 @@ func (a *apiServer) publish(ctx context.Context, subject, ackInbox string,
 	}
 
 	// Otherwise we need to publish and wait for the ack.
-	return a.publishSync(ctx, subject, ackInbox, buf)
+	return a.publishSync(ctx, subject, msg.Stream, ackInbox, buf)
 }
 
-func (a *apiServer) publishSync(ctx context.Context, subject,
+// publishSync publishes the message to the NATS subject and waits for the ack.
+// If the message is published to a stream, this is the ack of that stream.
+// Otherwise, it is the first ack received.
+func (a *apiServer) publishSync(ctx context.Context, subject, stream,
 	ackInbox string, msg []byte) (*client.Ack, error) {
 
 	sub, err := a.ncPublishes.SubscribeSync(ackInbox)
 	if err != nil {
 		return nil, errors.Wrap(err, "failed to subscribe to ack inbox")
 	}
-	if err := sub.AutoUnsubscribe(1); err != nil {
-		return nil, errors.Wrap(err, "failed to auto unsubscribe from ack inbox")
-	}
+	defer sub.Unsubscribe()
 
 	if err := a.ncPublishes.Publish(subject, msg); err != nil {
 		return nil, errors.Wrap(err, "failed to publish to NATS")
 	}
 
-	ackMsg, err := sub.NextMsgWithContext(ctx)
-	if err != nil {
-		if err == nats.ErrTimeout {
-			err = status.Error(codes.DeadlineExceeded, err.Error())
+	for {
+		ackMsg, err := sub.NextMsgWithContext(ctx)
+		if err != nil {
+			if err == nats.ErrTimeout {
+				err = status.Error(codes.DeadlineExceeded, err.Error())
+			}
+			return nil, err
 		}
-		return nil, err
-	}
 
-	ack, err := proto.UnmarshalAck(ackMsg.Data)
-	if err != nil {
-		return nil, errors.Wrap(err, "Invalid ack for publish")
+		ack, err := proto.UnmarshalAck(ackMsg.Data)
+		if err != nil {
+			return nil, errors.Wrap(err, "Invalid ack for publish")
+		}
+
+		// Every stream attached to the NATS subject receives the message and
+		// acks it on the same inbox. The ack of another stream says nothing
+		// about the stream the message was published to, so keep waiting.
+		if stream != "" && ack.Stream != stream {
+			continue
+		}
+		return ack, nil
 	}
-	return ack, nil
 }
 
 // subscribe sets up a subscription on the given partition and begins sending
@@ -1079,15 +1090,32 @@ func (a *apiServer) newPublishAsyncSession(stream client.API_PublishAsyncServer)
 	}
 }
 
+// streamAckInbox returns the NATS subject on which the session receives the
+// acks for messages it publishes to the given stream. This is the session's
+// ack inbox followed by a token for the stream. The stream name is hex encoded
+// because it is not necessarily a valid NATS subject token.
+func (p *publishAsyncSession) streamAckInbox(stream string) string {
+	return p.ackInbox + "." + hex.EncodeToString([]byte(stream))
+}
+
 // dispatchAcks sets up a subscription on the ack inbox to dispatch acks for
 // published messages back to the client.
 func (p *publishAsyncSession) dispatchAcks() error {
-	sub, err := p.ncPublishes.Subscribe(p.ackInbox, func(m *nats.Msg) {
+	sub, err := p.ncPublishes.Subscribe(p.ackInbox+".*", func(m *nats.Msg) {
 		ack, err := proto.UnmarshalAck(m.Data)
 		if err != nil {
 			p.logger.Errorf("api: Invalid ack received on ack inbox: %v", err)
 			return
 		}
+
+		// Every stream attached to the NATS subject receives the message and
+		// acks it on the same inbox. The ack of another stream says nothing
+		// about the stream the message was published to, so it must not
+		// complete the publish.
+		if m.Subject != p.streamAckInbox(ack.Stream) {
+			return
+		}
+
 		p.mu.Lock()
 		p.inflight--
 		if p.inflight < 0 {
@@ -1142,7 +1170,7 @@ func (p *publishAsyncSession) publishLoop() error {
 			continue
 		}
 
-		req.AckInbox = p.ackInbox
+		req.AckInbox = p.streamAckInbox(req.Stream)
 
 		p.logger.Debugf("api: PublishAsync [stream=%s, partition=%d]", req.Stream, req.Partition)
 
